@@ -515,3 +515,35 @@ def r4_array_params(sig, body, fn, log):
     nbody = '{ let %s = ij_[0]; let %s = ij_[1];' % (a, b) + body[1:]
     log.add('R4', fn, mk.group(0), 'ij_: [usize; 2] + lets')
     return nsig, nbody
+
+
+# ------------------------------------------------------------------ R21: RangeInclusive<f64>::contains
+_R21 = re.compile(r'\(\s*([0-9][0-9_.a-zA-Z]*)\s*\.\.=\s*([0-9][0-9_.a-zA-Z]*)\s*\)\s*\.contains\(\s*&\s*([A-Za-z_][A-Za-z0-9_.]*)\s*\)')
+
+
+def r21_range_contains(text, fn, log):
+    """`(A ..=B).contains(&X)` -> `range_incl_contains(A, B, X)` : std defines it as `A <= X && X <= B`
+    (assumed contract on RangeInclusive::<f64>::contains, listed in the trusted base)"""
+    m = mask(text)
+    edits = []
+    for mk in _R21.finditer(m):
+        new = 'range_incl_contains(%s, %s, %s)' % (mk.group(1), mk.group(2), mk.group(3))
+        edits.append((mk.start(), mk.end(), new))
+        log.add('R21', fn, text[mk.start():mk.end()], new)
+    return apply_edits(text, edits)
+
+
+# ------------------------------------------------------------------ R22: slice `.contains(&LIT)` on [usize; 2]
+_R22 = re.compile(r'\.contains\(\s*&\s*([0-9]+)\s*\)')
+
+
+def r22_arr_contains(text, fn, log):
+    while True:
+        m = mask(text)
+        mk = _R22.search(m)
+        if not mk:
+            return text
+        s = operand_start(m, mk.start())
+        new = 'arr2_contains(%s, %s)' % (text[s:mk.start()].strip(), mk.group(1))
+        log.add('R22', fn, text[s:mk.end()], new)
+        text = text[:s] + new + text[mk.end():]
